@@ -16,6 +16,7 @@ EXPLANATION += " R05.4 also requires drop_in_place to be instantiated at the pay
 EXPLANATION += " R05.2 also imports C14's R14.1 (every reference-count mutation is one atomic add / subtract: a `store(1 + n)` forgets existing handles); R05.4 also requires dealloc_ref to release through dealloc_id (C13 R13.2)."
 EXPLANATION += ' (R05.10) no library function drops a value of a payload type parameter through a reference (an assignment `*slot = item` into a ring / pool slot drops the stale copy of an already-delivered payload from the second lap on); R05.4 / R05.2 imports as listed under C13 / C14.'
 EXPLANATION += ' R05.3 also requires `From<OgreUnique> for OgreArc` to go through into_ogre_arc (C14 R14.8).'
+EXPLANATION += " (R05.11) a reserved slot wrapped in its owning handle is answered true (C08 R08.6: a false invites a second free) and the ogre_arc sends own their slot through one handle from allocation to fan-out, also across the setter's await (C03 R03.2: a future dropped mid-await frees it)."
 ASSUMPTIONS = ["setters initialise slots without reading/dropping previous bytes; handles do not outlive their channel (property's own assumptions)",
                "races between a late reader and slot recycling beyond the refcount protocol are not decided"]
 
